@@ -165,6 +165,16 @@ func c14Line(kind string, r *rand.Rand) []byte {
 		return []byte([]string{"", "", " ", "\t\t", "   "}[r.Intn(5)])
 	case "Overlong":
 		l := 65700 + r.Intn(5000)
+		// now and then a much longer line: beyond 256 KiB, 1 MiB, 2 MiB (any retry / growth scheme of the
+		// scanner has its own limits)
+		switch r.Intn(40) {
+		case 0:
+			l = 270000 + r.Intn(1000)
+		case 1:
+			l = 1048576 + r.Intn(64)
+		case 2:
+			l = 2100000 + r.Intn(1000)
+		}
 		switch r.Intn(3) {
 		case 0:
 			return bytes.Repeat([]byte("x"), l)
